@@ -61,47 +61,77 @@ LEVEL_TEXT = ("Lean theorems over R about the four Butcher tableaux, the per-bod
               "the propagated weights, all 8 up to order 4 for the embedded weights), row sums and shape for every integrator, FSAL row; the modelled "
               "field is Newton's law, central and energy-conserving; for the modelled step: exact quadrature of polynomial right-hand sides of degree < p "
               "for every step size, Taylor polynomial of exp on the linear test equation, an adaptive step is only accepted with its estimate <= tol, a "
-              "rejected step strictly shrinks and keeps its sign. The step model is tied to KeplerNum._make_step/_accel by a differential correspondence run.")
+              "rejected step strictly shrinks and keeps its sign. One KeplerNum object through any history of attribute assignments (method, step, tol, "
+              "bodies, in-place list changes), copy() and calls: the reply to a call is a function of the CURRENT attribute values only (= the reply of a "
+              "fresh object), the step is that of the tableau selected by the current method, copy() keeps every setting. The padding rule of _iter "
+              "(loop condition, interp flag, padding count, order argument of Ephem(...) and DEFAULT_ORDER translated from the source on every run): "
+              "whenever an output is interpolated the tabulation holds >= DEFAULT_ORDER points, starts at the start, reaches the stop and is interpolated "
+              "at order DEFAULT_ORDER however short the span; the same for the positioning phase of propagate(). The step model, the object histories "
+              "and the tabulations are tied to KeplerNum._make_step/_accel, to real objects driven through the same histories, and to the Ephem objects "
+              "the real _iter builds, by differential correspondence runs.")
 LEVEL_NOTE = ("the classical theorem 'order conditions up to p => global convergence at order p' is cited, not formalised; convergence of the real propagator, "
-              "first-integral drift and resampling independence are searched by the oracle only; R -> double gap covered by tolerance-bounded correspondence; "
-              "Lean kernel + propext/Classical.choice/Quot.sound; AST translator and harness trusted")
-TECHNIQUE = ("Lean 4 proof (norm_num / ring / rpow lemmas / induction on fuel) over tables and formulas regenerated from the Python AST; "
-             "differential correspondence of the compiled step model with KeplerNum._make_step/_accel")
+              "first-integral drift and resampling independence are searched by the oracle only; the Lagrange window arithmetic of utils/interp.py is C09's; "
+              "R -> double gap covered by tolerance-bounded correspondence; Lean kernel + propext/Classical.choice/Quot.sound; AST translator and harness trusted")
+TECHNIQUE = ("Lean 4 proof (norm_num / ring / rpow lemmas / induction on fuel, on histories and on the list of accepted step sizes / omega) over tables, "
+             "formulas and loop conditions regenerated from the Python AST; differential correspondence of the compiled models with KeplerNum._make_step/_accel, "
+             "with real objects driven through random operation sequences, and with the tabulations the real _iter hands to Ephem")
 TRUSTED = [
     "harness/props/C06.py: extract() reads BUTCHER (entries kept as the source's rational expressions), the body of `for body in self.bodies` of _accel, "
     "the step-size update statement and MAX_ITER of _make_step from the AST into Generated/KeplerNum{F,R}.lean on every run; the tableau reading is "
     "self-checked bit-exactly against the live KeplerNum.BUTCHER, and the compiled Float instantiation is compared with it again in the correspondence run",
-    "lean/templates/RK.tpl (hand-written stage loop, weight combination, error estimate, accept/shrink loop), tied by the correspondence run",
+    "harness/props/C06.py: translate_iter() reads from `KeplerNum._iter` the condition of the march loop, the `interp` assignment, the padding count of the "
+    "positioning phase and the `order` argument of both Ephem(...) calls, from ephem.py DEFAULT_ORDER and the order defaulting of Ephem.__init__, into "
+    "Generated/KNIterSrc.lean; the loop bodies and the positioning loop condition are compared textually with what Model/KNIter.lean models (any other "
+    "shape is an extraction failure = a broken obligation)",
+    "lean/templates/RK.tpl (hand-written stage loop, weight combination, error estimate, accept/shrink loop), lean/templates/KNObj.tpl (attribute state "
+    "machine), lean/BeyondVerif/Model/KNIter.lean (march / padding over the reported step sizes): tied by the correspondence runs",
     "harness/py2lean.py Tr.expr for scalar entries",
     "numpy / libm double arithmetic vs R: tolerance 1e-11 relative on the step result",
 ]
 ASSUMPTIONS = [
-    "point-mass bodies, no maneuvers (ImpulsiveMan/ContinuousMan handling of _make_step/_accel belongs to C17); tol > 0",
-    "theorems are over R; the implementation computes in IEEE doubles; dates/steps have microsecond resolution (usRound in the model)",
+    "point-mass bodies, no maneuvers in the Lean model (ImpulsiveMan/ContinuousMan handling of _make_step/_accel belongs to C17; the re-use oracle does "
+    "change the orbit's maneuvers between calls and compares with a fresh propagator); tol > 0",
+    "theorems are over R; the implementation computes in IEEE doubles; dates/steps have microsecond resolution (usRound in the model; Int microseconds in KNIter)",
     "cited, not formalised: order conditions for all rooted trees with <= p vertices imply local error O(h^(p+1)) and global convergence at order p "
     "(Butcher; Hairer-Norsett-Wanner, Solving ODEs I, II.2-II.3); the list of the 17 trees with <= 5 vertices is hand-written (orders and densities proved)",
     "the embedded error estimate p_error is a cancelling sum (sum(b - b_star) = 0): passes whose estimate lies within 2e-16 |h||v| of tol are "
     "incomparable between numpy's and the model's summation order and are skipped by the correspondence (counted as step-borderline-skipped)",
+    "object histories in the Lean model use bodies at rest (the correspondence drives real KeplerNum objects with duck-typed fixed bodies); the `frame` "
+    "attribute, the bound orbit and its maneuvers are outside the Lean state machine and covered by the re-use oracle on the public API",
+    "KNIter takes the accepted step sizes `_make_step` reports as an input list (observed on the real run in the correspondence); theorems hold for every such list",
 ]
 NOT_COVERED = [
     "global convergence of the real propagator at order p, energy / angular-momentum drift bounds, adaptive error per step and over a span: oracle only "
-    "(observed order by step halving read off the pair (h/2, h/4): >= 3.5 for RK4, >= 0.7 for Euler — one-sided, because over whole numbers of "
-    "revolutions the h^4 term nearly cancels and RK4 shows 4.9; error bounds scaled by (n_p h)^p resp. tol; one-step local error <= 2 tol)",
+    "(observed order by step halving read off the finest pair above the interpolation floor: >= 3.5 for RK4, >= 0.7 for Euler — one-sided, because over "
+    "whole numbers of revolutions the h^4 term nearly cancels and RK4 shows 4.9; error bounds scaled by (n_p h)^p resp. tol; one-step local error <= 2 tol)",
     "resampling accuracy (Ephem Lagrange-8 over float MJD): oracle only. The 'few millimetres' of the property hold for n_p*h <= 0.05; the floor is "
     "6 ulp(MJD) x speed (up to 15 mm observed at perigee speed, edge interval) and the Lagrange remainder reaches decimetres to metres for the coarsest "
     "steps in low eccentric orbits (observed 7 m at h = 120 s, e = 0.6, perigee 200 km), tolerance 5 rp (n_p h)^8 there",
-    "_iter's bookkeeping (pre-positioning loop, padding to 8 points, date accumulation): oracle only here; the iteration contract is C08 "
-    "(iter(stop=..., step=...) also yields dates after `stop`, up to the first integration node past it — reported to C08)",
-    "targets within +-3 orbits are reached by the thorough tier only up to 900 integration steps per run (quick: 110)",
+    "which `order` points of the tabulation Interp._lagrange selects around a date (window arithmetic): C09; here only that the tabulation has them and "
+    "which order is requested (observed on the Ephem objects the real _iter builds)",
+    "the dates `_iter` yields (Ephem.iter, Date.range): the iteration contract is C08 (iter(stop=..., step=...) also yields dates after `stop`, up to the "
+    "first integration node past it — reported to C08); the short-span oracle checks that the requested dates come first",
+    "targets within +-3 orbits are reached by the thorough tier only up to 900 integration steps per run (quick: 130)",
 ]
 OPEN = ["accel_energy is the algebraic identity v.a + mu (r.v)/rho^3 = 0; the HasDerivAt form (the attraction is the gradient of mu/rho) is not stated",
         "quadrature exactness and the linear test equation are stated per tableau with explicit polynomial coefficients, not as one theorem "
-        "'bushy/tall-tree conditions => exactness' for an arbitrary tableau"]
+        "'bushy/tall-tree conditions => exactness' for an arbitrary tableau",
+        "the object state machine has no `frame` / bound-orbit component (the `orbit` setter converts a copy at every Orbit.propagate / Orbit.iter call); "
+        "KNIter does not model Ephem.iter / the yielded dates (C08's model does)"]
 RULE = ("correspondence: the five method names incl. unknown ones (tableaux bit-exact), _accel with Earth/Moon/Sun combinations on random bound orbits "
         "(perigee 200 km .. GEO+, e <= 0.74), _make_step for all four methods, steps 5-120 s both signs, tol 1e-9..1e-2, rtol 1e-11 (step size exact when "
-        "not shrunk); non-trivial = step != 0; distinct = distinct request line. oracle: RK4/Euler observed order by step halving against an independent "
-        "universal-variable Kepler solution, error bounds, energy/momentum drift, adaptive global and one-step error, independence of output step, "
-        "dates-vs-step, propagate-vs-iterate, chained propagate keeps (method, step, tol); forward and backward targets")
+        "not shrunk); histories of 3-10 operations on ONE real KeplerNum object (assign method incl. upper-case / unknown names, step, tol, bodies; "
+        "bodies.append / pop in place; copy(); _make_step; butcher) against the model's state machine, each disagreeing call also compared with a fresh real "
+        "object (a difference there is a violation of the property itself); the Ephem objects (dates, order) the real _iter builds and its number of "
+        "_make_step calls for every request form (explicit step smaller/equal/larger/incommensurate, date lists, ranges, backward, offset start, "
+        "Orbit.ephem, propagate, native step, step is self.step, listeners) on spans of 1..10 steps, all four methods, against KNIter fed with the "
+        "observed accepted step sizes (exact); non-trivial = step != 0 resp. a call after a change resp. >= 1 integration step; distinct = distinct request "
+        "line. oracle, cheap families first: short spans (1..10 integration steps, the twelve request forms, every method) iterate vs propagate vs "
+        "analytical; one KeplerNum object re-used after changes of method / step / tol / bodies (also in place) / frame / maneuvers / bound orbit vs a "
+        "fresh propagator and vs the analytical solution; adaptive global and one-step error over <= 30 steps both directions; chained propagate keeps "
+        "(method, step, tol); then RK4/Euler observed order by step halving against an independent universal-variable Kepler solution, error bounds, "
+        "energy/momentum drift, independence of output step, dates-vs-step, propagate-vs-iterate (all four methods); forward and backward targets. "
+        "When a proof or a correspondence is broken the quick-tier sweep stops at the first failing input that is not a listed open finding.")
 
 KN_PY = os.path.join(core.REPO, "beyond", "propagators", "keplernum.py")
 METHODS = ["euler", "rk4", "rkf54", "dopri54"]
@@ -879,22 +909,40 @@ def corr_histories(ctx, out, mu):
                 since = []
                 continue
             since.append({"sm": "method", "ss": "step", "st": "tol", "sb": "bodies", "ab": "bodies-append", "db": "bodies-pop", "cp": "copy"}[kind])
-            if kind == "sm":
-                prop.method = op["m"]
-            elif kind == "ss":
-                prop.step = timedelta(seconds=op["h"])
-            elif kind == "st":
-                prop.tol = op["t"]
-            elif kind == "sb":
-                prop.bodies = list(op["bodies"])
-            elif kind == "ab":
-                prop.bodies.append(op["body"])
-            elif kind == "db":
-                prop.bodies.pop()
-            elif kind == "cp":
-                prop = prop.copy()
-            if mrep != "q":
-                out.fail("c06-seq-" + kind, "an assignment is not silent in the model", dict(desc, at=k), observed="q", expected=mrep)
+            real = "q"
+            try:
+                if kind == "sm":
+                    prop.method = op["m"]
+                elif kind == "ss":
+                    prop.step = timedelta(seconds=op["h"])
+                elif kind == "st":
+                    prop.tol = op["t"]
+                elif kind == "sb":
+                    prop.bodies = list(op["bodies"])
+                elif kind == "ab":
+                    prop.bodies.append(op["body"])
+                elif kind == "db":
+                    prop.bodies.pop()
+                elif kind == "cp":
+                    old_ = prop
+                    prop = prop.copy()
+                    lost = [a for a in ("method", "step", "tol", "bodies", "frame")
+                            if (getattr(prop, a) != (getattr(old_, a).lower() if a == "method" else getattr(old_, a)))]
+                    if lost:
+                        out.fail("copy-loses-" + "+".join(lost), "KeplerNum.copy() (the propagator attached to every orbit returned by propagate / iter) does not "
+                                 "carry the settings of the object it copies: a continued or split request integrates with other settings", dict(desc, at=k),
+                                 observed={a: str(getattr(prop, a)) for a in lost}, expected={a: str(getattr(old_, a)) for a in lost},
+                                 violates_property=old_.method in KeplerNum.BUTCHER)
+                        break
+            except KeyError:
+                real = "unknown-name"
+            except IndexError:
+                real = "index-error"
+            except (AttributeError, TypeError, ValueError) as e:
+                real = "raises-" + type(e).__name__
+            if mrep != real:
+                out.fail("c06-seq-" + kind, f"history on one object: an assignment / copy() at operation {k} is silent on one side and raises on the other",
+                         dict(desc, at=k), observed=real, expected=mrep)
                 break
         out.sample({"history": [op["op"] for op in ops], "model": [m[:40] for m in model]}, limit=2)
 
